@@ -15,7 +15,7 @@ env = dict(os.environ, PYTHONPATH=wt)
 demo = os.path.join(src, "demo.py")
 # demos written by the agents refer to their own worktree path: point them at ours
 txt = open(demo).read()
-for old in (f"/tmp/wt3_{prop}", f"/tmp/wt_{prop}"):
+for old in (f"/tmp/wt4_{prop}", f"/tmp/wt3_{prop}", f"/tmp/wt_{prop}"):
     txt = txt.replace(old, wt)
 demo2 = f"/tmp/confirm_{sid}_demo.py"
 open(demo2, "w").write(txt)
